@@ -672,6 +672,175 @@ Proof.
 Qed.
 
 (* ================================================================== *)
+(* several sources; registry keys; adjacency                          *)
+(* ================================================================== *)
+(* ---- several sources (the URL list): every source is scanned, the first hit in source order wins ---- *)
+Definition first_hit sats p d (es : list entry) : list tle :=
+  match find (takes sats p true d) es with Some e => [entry_tle e] | None => [] end.
+
+Lemma from_uris_first sats p d fs :
+  forallb (forallb wf_entry) fs = true -> plain p = true ->
+  from_uris sats p true d (map lines_of fs) = Res (flat_map (first_hit sats p d) fs).
+Proof.
+  intros W P. induction fs as [|es fs IH]; [reflexivity|].
+  apply forallb_cons in W as [We Wfs]. cbn [map from_uris flat_map].
+  rewrite scan_first by assumption. rewrite (IH Wfs). unfold first_hit.
+  destruct (find (takes sats p true d) es); reflexivity.
+Qed.
+
+Lemma find_app {A} (f : A -> bool) l1 l2 :
+  find f (l1 ++ l2) = match find f l1 with Some x => Some x | None => find f l2 end.
+Proof. induction l1 as [|a l1 IH]; [reflexivity|]. cbn [app find]. destruct (f a); [reflexivity|exact IH]. Qed.
+
+Lemma first_hit_concat sats p d fs :
+  match flat_map (first_hit sats p d) fs with
+  | [] => KeyError
+  | (a, b) :: _ => Found a b
+  end =
+  match find (takes sats p true d) (concat fs) with
+  | Some e => Found (strip (e_l1 e)) (strip (e_l2 e))
+  | None => KeyError
+  end.
+Proof.
+  induction fs as [|es fs IH]; [reflexivity|]. cbn [flat_map concat]. rewrite find_app.
+  unfold first_hit at 1. destruct (find (takes sats p true d) es) as [e|]; [reflexivity|exact IH].
+Qed.
+
+Theorem first_match_sources sats stream p fs :
+  sats_ok sats = true -> forallb (forallb wf_entry) fs = true -> plain p = true ->
+  read_tle sats stream p (map lines_of fs) = spec_read sats stream p (concat fs).
+Proof.
+  intros S W P. unfold read_tle. rewrite from_uris_first by assumption.
+  rewrite first_hit_concat. unfold spec_read.
+  rewrite find_takes_spec by (exact S || apply forallb_concat, W). reflexivity.
+Qed.
+
+(* ---- registry keys are never empty (so an empty requested name is never "registered") ---- *)
+Lemma split_aux_nonempty l : forall cur w, In w (split_aux l cur) -> w <> [].
+Proof.
+  induction l as [|c t IH]; intros cur w H; cbn [split_aux] in H.
+  - destruct cur as [|x cur']; [contradiction|]. destruct H as [<-|[]].
+    intros E. apply (f_equal (@rev ascii)) in E. rewrite rev_involutive in E. discriminate.
+  - destruct (is_space c).
+    + destruct cur as [|x cur']; [exact (IH _ _ H)|]. destruct H as [<-|H]; [|exact (IH _ _ H)].
+      intros E. apply (f_equal (@rev ascii)) in E. rewrite rev_involutive in E. discriminate.
+    + exact (IH _ _ H).
+Qed.
+
+Lemma join_sp_nonempty ws : ws <> [] -> (forall w, In w ws -> w <> []) -> join_sp ws <> [].
+Proof.
+  destruct ws as [|w t]; [contradiction|]. intros _ H. cbn [join_sp].
+  assert (Hw : w <> []) by (apply H; left; reflexivity).
+  destruct t; [exact Hw|]. destruct w; [contradiction|discriminate].
+Qed.
+
+Lemma removelast_In {A} (l : list A) x : In x (removelast l) -> In x l.
+Proof.
+  induction l as [|a l IH]; [contradiction|]. cbn [removelast]. destruct l as [|b l']; [contradiction|].
+  intros [<-|H]; [left; reflexivity|right; apply IH, H].
+Qed.
+
+Lemma platform_row_key_nonempty up row k v : platform_row up row = Some (k, v) -> k <> [].
+Proof.
+  unfold platform_row. destruct (prefixb [ch 35] row); [discriminate|].
+  destruct (length (split_ws row) <? 2) eqn:L; [discriminate|]. apply Nat.ltb_ge in L.
+  intros H. inversion H as [[Hk Hv]]. clear H Hv.
+  assert (J : join_sp (removelast (split_ws row)) <> []).
+  { apply join_sp_nonempty.
+    - destruct (split_ws row) as [|a [|b t]]; cbn [length] in L; try lia. cbn [removelast]. discriminate.
+    - intros w Hw. apply removelast_In in Hw. exact (split_aux_nonempty row [] w Hw). }
+  destruct up; [|exact J]. unfold upper. intros E. apply map_eq_nil in E. contradiction.
+Qed.
+
+Lemma dict_set_in d k v : forall kv, In kv (dict_set d k v) -> kv = (k, v) \/ In kv d.
+Proof.
+  induction d as [|[k' v'] t IH]; intros kv H; cbn [dict_set] in H.
+  - destruct H as [<-|[]]. left. reflexivity.
+  - destruct (leqb k k').
+    + destruct H as [<-|H]; [left; reflexivity|right; right; exact H].
+    + destruct H as [<-|H]; [right; left; reflexivity|].
+      destruct (IH kv H) as [E|E]; [left; exact E|right; right; exact E].
+Qed.
+
+Lemma registry_keys_nonempty up rows : forall d,
+  (forall kv, In kv d -> fst kv <> []) ->
+  forall kv, In kv (fold_left (fun d row => match platform_row up row with
+                                            | Some (k, v) => dict_set d k v
+                                            | None => d
+                                            end) rows d) -> fst kv <> [].
+Proof.
+  induction rows as [|r rows IH]; intros d Hd kv H; cbn [fold_left] in H; [exact (Hd kv H)|].
+  apply (IH _) in H; [exact H|]. intros kv' H'.
+  destruct (platform_row up r) as [[k v]|] eqn:R; [|exact (Hd kv' H')].
+  apply dict_set_in in H' as [->|H']; [|exact (Hd kv' H')].
+  cbn [fst]. exact (platform_row_key_nonempty up r k v R).
+Qed.
+
+Definition ids5 (sats : dict) : bool := forallb (fun kv => length (snd kv) =? 5) sats.
+
+(* for a registry read from ANY platforms file, only "ids have 5 characters" remains to be checked *)
+Theorem registry_sats_ok up rows :
+  ids5 (read_platform_numbers up rows) = true -> sats_ok (read_platform_numbers up rows) = true.
+Proof.
+  unfold ids5, sats_ok. intros H. rewrite forallb_forall in *. intros kv Hin.
+  rewrite (H kv Hin), andb_true_r.
+  pose proof (registry_keys_nonempty up rows [] (fun kv (F : In kv []) => match F with end) kv Hin) as N.
+  destruct kv as [k v]. cbn [fst] in *. destruct k as [|c k']; [exfalso; apply N; reflexivity|reflexivity].
+Qed.
+
+(* ---- unconditional (no well-formedness at all): whatever the scanner returns is a pair of
+   ADJACENT source lines — the two result lines are never picked from distant places ---- *)
+Definition adjacent (fid : list line) (t : tle) : Prop :=
+  exists pre l1 l2 post, fid = pre ++ l1 :: l2 :: post /\ t = (strip l1, strip l2).
+
+Lemma adjacent_cons l fid t : adjacent fid t -> adjacent (l :: fid) t.
+Proof. intros (pre & l1 & l2 & post & E & T). exists (l :: pre), l1, l2, post. subst. split; reflexivity. Qed.
+
+Lemma scan_adjacent sats p o d n : forall fid acc ts,
+  length fid <= n -> scan sats p o d fid acc = Res ts ->
+  forall t, In t ts -> In t acc \/ adjacent fid t.
+Proof.
+  induction n as [|n IH]; intros fid acc ts L H t Ht.
+  - destruct fid; [|cbn in L; lia]. cbn in H. inversion H; subst. left. exact Ht.
+  - destruct fid as [|l0 fid1]; [cbn in H; inversion H; subst; left; exact Ht|].
+    cbn [length] in L. rewrite scan_cons in H.
+    assert (STEP : forall fid' acc', length fid' <= n -> scan sats p o d fid' acc' = Res ts ->
+                     (forall x, In x acc' -> In x acc \/ adjacent (l0 :: fid1) x) ->
+                     (forall x, adjacent fid' x -> adjacent (l0 :: fid1) x) ->
+                     In t acc \/ adjacent (l0 :: fid1) t).
+    { intros fid' acc' L' H' Hacc Hadj. destruct (IH fid' acc' ts L' H' t Ht) as [A|A]; [exact (Hacc t A)|right; exact (Hadj t A)]. }
+    destruct (classify sats p l0).
+    + destruct fid1 as [|l1 [|l2 fid3]]; try discriminate.
+      assert (HERE : adjacent (l0 :: l1 :: l2 :: fid3) (strip l1, strip l2)).
+      { exists [l0], l1, l2, fid3. split; reflexivity. }
+      destruct o.
+      * inversion H; subst. destruct Ht as [<-|[]]. right. exact HERE.
+      * apply (STEP fid3 (acc ++ [(strip l1, strip l2)])); [cbn [length] in L; lia|exact H| |].
+        -- intros x Hx. apply in_app_or in Hx as [Hx|[<-|[]]]; [left; exact Hx|right; exact HERE].
+        -- intros x Hx. do 3 apply adjacent_cons. exact Hx.
+    + destruct (take_cond sats p o d).
+      * destruct fid1 as [|l2 fid2]; try discriminate.
+        assert (HERE : adjacent (l0 :: l2 :: fid2) (strip l0, strip l2)).
+        { exists [], l0, l2, fid2. split; reflexivity. }
+        destruct o.
+        -- inversion H; subst. destruct Ht as [<-|[]]. right. exact HERE.
+        -- apply (STEP fid2 (acc ++ [(strip l0, strip l2)])); [cbn [length] in L; lia|exact H| |].
+           ++ intros x Hx. apply in_app_or in Hx as [Hx|[<-|[]]]; [left; exact Hx|right; exact HERE].
+           ++ intros x Hx. do 2 apply adjacent_cons. exact Hx.
+      * apply (STEP fid1 acc); [lia|exact H|intros x Hx; left; exact Hx|intros x Hx; apply adjacent_cons; exact Hx].
+    + apply (STEP fid1 acc); [lia|exact H|intros x Hx; left; exact Hx|intros x Hx; apply adjacent_cons; exact Hx].
+Qed.
+
+Theorem result_lines_adjacent sats d p fid a b :
+  read_tle sats d p [fid] = Found a b -> adjacent fid (a, b).
+Proof.
+  unfold read_tle. cbn [from_uris]. destruct (scan sats p true d fid []) as [ts|] eqn:E; [|discriminate].
+  rewrite app_nil_r. destruct ts as [|[a' b'] ts']; [discriminate|]. intros H. inversion H; subst.
+  destruct (scan_adjacent sats p true d (length fid) fid [] _ (le_n _) E (a, b) (or_introl eq_refl)) as [[]|A].
+  exact A.
+Qed.
+
+(* ================================================================== *)
 (* necessity of the hypotheses: witnesses on the faithful model       *)
 (* ================================================================== *)
 From Coq Require Import String.
